@@ -9,6 +9,17 @@ from .refs import RefError, prelude_from_decls, prelude_from_trace_decls
 from .runner import bump, death_of, empty_result, log_hash, stable_hash, sub_rng
 
 
+def engine_name(options):
+    names = [o[0] for o in options]
+    if ':ghost-vars' in names:
+        return 'ghost'
+    if ':pure-lookahead' in names:
+        return 'lookahead'
+    if ':picky' in names:
+        return 'picky'
+    return 'default'
+
+
 def opt_on(options, name):
     return any(o[0] == name and o[1] == 'true' for o in options)
 
@@ -144,11 +155,16 @@ def alias_feature(check, ctx, case, upto=None):
             continue
     if consts['true'] >= 2 or consts['false'] >= 2:
         return True
-    for g in groups.values():
+    # all pairs (terms over different symbol sets can still simplify to the same term, e.g. (=> (= u u) b) and b)
+    budget = 1500
+    for g in [occ]:
         for i in range(len(g)):
             for j in range(i + 1, len(g)):
                 if g[i] == g[j]:
                     return True
+                budget -= 1
+                if budget < 0:
+                    return False
                 try:
                     if ctx.refs.truth(prelude, ['(not (= %s %s))' % (g[i], g[j])]) == 'unsat':
                         return True
@@ -179,6 +195,16 @@ def group_simplifies(check, ctx, case, index):
                 return True
             try:
                 if ctx.refs.truth(prelude, [t]) == 'unsat' or ctx.refs.truth(prelude, ['(not %s)' % t]) == 'unsat':
+                    return True
+            except RefError:
+                pass
+        # the conjunction as a whole coincides with another occurrence (an assertion or a named subterm)
+        members = set(g)
+        others = [a['ref'] for a in snap['asserts'] if a['name'] not in members] + [d['ref'] for n, d in snap['names'].items() if d['is_bool'] and n not in members]
+        conj = '(and %s)' % ' '.join(terms)
+        for o in others:
+            try:
+                if ctx.refs.truth(prelude, ['(not (= %s %s))' % (conj, o)]) == 'unsat':
                     return True
             except RefError:
                 pass
@@ -235,7 +261,10 @@ class C03(ArtifactCheck):
         return case
 
     def signature(self, case, v, ctx=None):
-        return {'logic': case['hist']['logic'], 'engine': case.get('tags', {}).get('engine')}
+        knobs = case.get('knobs', {})
+        return {'logic': case['hist']['logic'], 'engine': engine_name(case['options']),
+                'incremental': not any(o[0] == ':incremental' and o[1] == 'false' for o in case['options']),
+                'skip_knobs': any(k in knobs for k in ('sat_initial_skip_step', 'sat_skip_step_factor'))}
 
 
 class C06(ArtifactCheck):
@@ -250,8 +279,12 @@ class C06(ArtifactCheck):
             'equivalent to a live assertion and the printed set unsat; non-trivial = core with >= 2 elements that omits >= 1 named assertion; distinct = hash of (history, config)')
 
     def signature(self, case, v, ctx=None):
+        # a top-level named assertion containing a term-level ite is rewritten by the ITE handler before it is stored,
+        # while its name stays attached to the term as written
+        named_ite = any(c['k'] == 'assert' and not c.get('fault') and '(ite ' in c['ref'] and any(n[3] for n in c.get('names', []))
+                        for c in case['hist']['commands'][:v['index']])
         return {'full': opt_on(case['options'], ':print-cores-full'), 'minimal': opt_on(case['options'], ':minimal-unsat-cores'),
-                'alias': alias_feature(self, ctx, case, v['index'])}
+                'alias': alias_feature(self, ctx, case, v['index']), 'named_ite': named_ite}
 
 
 class C07(C06):
@@ -281,8 +314,11 @@ class C08(ArtifactCheck):
         if rng is not None:
             case['clock'] = {'ns_per_tick': rng.choice([1, 100, 1000, 100000]), 'jumps': [[rng.randint(100, 200000), rng.choice([10 ** 6, 10 ** 9, 10 ** 10])] for _ in range(rng.randint(0, 2))]}
             case['rand_seed'] = rng.randint(1, 2 ** 31)
-            if rng.random() < 0.3:
-                case['knobs']['proof_red_time'] = rng.choice([0.0, 0.001, 0.1, 1.0])
+            # OpenSMT wants exactly one of {reduction time, number of graph traversals} when :proof-reduce is on
+            reduce_on = any(o[0] == ':proof-reduce' and o[1] == 'true' for o in case['options'])
+            if reduce_on and rng.random() < 0.4:
+                case['knobs']['proof_red_time'] = rng.choice([0.001, 0.1, 1.0])
+                case['options'] = [o for o in case['options'] if o[0] != ':proof-num-graph-traversals'] + [[':proof-num-graph-traversals', '0']]
         return case
 
     def signature(self, case, v, ctx=None):
@@ -581,7 +617,7 @@ class C19(HistCheck):
             return res
         if d1 or exc1:
             # the run with the rejected commands died although the run without them did not
-            res['violations'].append({'cls': 'state-changed-by-rejected-command', 'sig': {'faults': sorted({f['kind'] for f in case['faults']}), 'diverge': 'died'},
+            res['violations'].append({'cls': 'state-changed-by-rejected-command', 'sig': {'faults': sorted({f['kind'] for f in case['faults']}), 'name_in_rejected': any(f['kind'].endswith('with-name') for f in case['faults']), 'diverge': 'died'},
                                       'detail': {'death': str(d1 or exc1)[:200]}})
             return res
         # injected commands must have been rejected
@@ -609,11 +645,11 @@ class C19(HistCheck):
             if c['k'] == 'check-sat':
                 a0, a1 = answer_of(o0), answer_of(o1)
                 if a0 != a1 and 'unknown' not in (a0, a1):
-                    res['violations'].append({'cls': 'state-changed-by-rejected-command', 'sig': {'faults': kinds, 'diverge': 'check-sat'},
+                    res['violations'].append({'cls': 'state-changed-by-rejected-command', 'sig': {'faults': kinds, 'name_in_rejected': any(k.endswith('with-name') for k in kinds), 'diverge': 'check-sat'},
                                               'detail': {'index': i, 'without': a0, 'with': a1}})
                     return res
             elif has_error(o0) != has_error(o1):
-                res['violations'].append({'cls': 'state-changed-by-rejected-command', 'sig': {'faults': kinds, 'diverge': c['k']},
+                res['violations'].append({'cls': 'state-changed-by-rejected-command', 'sig': {'faults': kinds, 'name_in_rejected': any(k.endswith('with-name') for k in kinds), 'diverge': c['k']},
                                           'detail': {'index': i, 'without': o0.strip()[:200], 'with': o1.strip()[:200]}})
                 return res
         # semantic correctness of the artefacts of H' with respect to H's R-stack
@@ -630,7 +666,7 @@ class C19(HistCheck):
             if (v['cls'], v['index']) in base_classes:
                 bump(res, 'artefact-defect-also-without-fault')
                 continue
-            res['violations'].append({'cls': 'state-changed-by-rejected-command', 'sig': {'faults': kinds, 'diverge': v['cls']}, 'detail': dict(v['detail'], index=v['index'])})
+            res['violations'].append({'cls': 'state-changed-by-rejected-command', 'sig': {'faults': kinds, 'name_in_rejected': any(k.endswith('with-name') for k in kinds), 'diverge': v['cls']}, 'detail': dict(v['detail'], index=v['index'])})
             break
         return res
 
